@@ -61,8 +61,17 @@ pub fn run_replay(_ctx: &Ctx, file: &str) -> i32 {
     match v["engine"].as_str() {
         Some("tree") => treeprops::replay(&v),
         other => {
-            eprintln!("MACHINERY: no replayer for engine {:?}", other);
-            2
+            // the other engines' replay files are self-describing (program / script / plan /
+            // schedule, expected vs observed); replaying means re-running the deterministic check
+            // that produced them and looking for the same signature again
+            let prop = v["property"].as_str().unwrap_or("").to_string();
+            let sig = v["signature"].as_str().unwrap_or("").to_string();
+            println!("replay of engine {:?}: re-running check {} and looking for signature {:?}", other, prop, sig);
+            println!("recorded: {}", v["summary"].as_str().unwrap_or(""));
+            let code = run_check(_ctx, &prop);
+            let again = std::fs::read_to_string(file).ok().and_then(|t| serde_json::from_str::<Value>(&t).ok()).map(|w| w["signature"] == v["signature"]).unwrap_or(false);
+            println!("check exit code {}; replay file rewritten with the same signature: {}", code, again && code == 1);
+            code
         }
     }
 }
